@@ -8,6 +8,7 @@ import (
 	"bytes"
 	"fmt"
 	"math"
+	"math/big"
 	"strconv"
 	"strings"
 	"unicode/utf8"
@@ -133,36 +134,49 @@ func FormatNumber(value float64, picture string, format DecimalFormat) (string, 
 		return vars.Prefix + format.Infinity + vars.Suffix, nil
 	}
 
+	// Work on the exact decimal value of the number (its shortest
+	// round-trip representation). Scaling and rounding a float64
+	// gives the wrong digits for values next to a rounding tie
+	// and for scaled values that are not exactly representable,
+	// e.g. 0.07 as a percentage.
+	dec, ok := new(big.Rat).SetString(strconv.FormatFloat(value, 'g', -1, 64))
+	if !ok {
+		return "", fmt.Errorf("cannot format number %g", value)
+	}
+
 	switch vars.NumberType {
 	case typePercent:
-		value *= 100
+		dec.Mul(dec, big.NewRat(100, 1))
 	case typePermille:
-		value *= 1000
+		dec.Mul(dec, big.NewRat(1000, 1))
 	}
 
 	exponent := 0
 	// Zero has no exponent to normalise, and the mantissa of a
 	// negative number is scaled by its magnitude.
-	if vars.MinExponentSize != 0 && value != 0 {
+	if vars.MinExponentSize != 0 && dec.Sign() != 0 {
 
-		maxMantissa := math.Pow(10, float64(vars.ScalingFactor))
-		minMantissa := math.Pow(10, float64(vars.ScalingFactor-1))
+		ten := big.NewRat(10, 1)
+		maxMantissa := ratPow10(vars.ScalingFactor)
+		minMantissa := ratPow10(vars.ScalingFactor - 1)
+		abs := new(big.Rat).Abs(dec)
 
-		for math.Abs(value) < minMantissa {
-			value *= 10
+		for abs.Cmp(minMantissa) < 0 {
+			abs.Mul(abs, ten)
 			exponent--
 		}
 
-		for math.Abs(value) > maxMantissa {
-			value /= 10
+		for abs.Cmp(maxMantissa) > 0 {
+			abs.Quo(abs, ten)
 			exponent++
 		}
+
+		dec = abs
 	}
 
 	var integerPart, fractionalPart, exponentPart string
 
-	value = round(value, vars.MaxFractionalSize)
-	s := makeNumberString(value, vars.MaxFractionalSize, &format)
+	s := makeNumberString(dec, vars.MaxFractionalSize, &format)
 	sint, sfrac := splitStringAtByte(s, '.')
 	if sint != "" {
 		integerPart = formatIntegerPart(sint, &vars, &format)
@@ -172,7 +186,7 @@ func FormatNumber(value float64, picture string, format DecimalFormat) (string, 
 	}
 
 	if vars.MinExponentSize != 0 {
-		s := makeNumberString(float64(exponent), 0, &format)
+		s := makeNumberString(big.NewRat(int64(exponent), 1), 0, &format)
 		exponentPart = formatExponentPart(s, &vars, &format)
 	}
 
@@ -595,9 +609,49 @@ func formatExponentPart(exponent string, vars *subpictureVariables, format *Deci
 	return exponent
 }
 
-func makeNumberString(value float64, dp int, format *DecimalFormat) string {
+// ratPow10 returns 10 to the power of n (n may be negative).
+func ratPow10(n int) *big.Rat {
+	p := new(big.Int).Exp(big.NewInt(10), big.NewInt(int64(absInt(n))), nil)
+	if n < 0 {
+		return new(big.Rat).SetFrac(big.NewInt(1), p)
+	}
+	return new(big.Rat).SetInt(p)
+}
 
-	s := strconv.AppendFloat(make([]byte, 0, 24), math.Abs(value), 'f', dp, 64)
+func absInt(n int) int {
+	if n < 0 {
+		return -n
+	}
+	return n
+}
+
+// makeNumberString returns the absolute value of a number rounded
+// (half to even) to dp decimal places, as a string of digits with
+// a '.' before the decimal places.
+func makeNumberString(value *big.Rat, dp int, format *DecimalFormat) string {
+
+	v := new(big.Rat).Abs(value)
+	v.Mul(v, ratPow10(dp))
+
+	// q is the floor of v, rem/denom its fractional part.
+	q, rem := new(big.Int).DivMod(v.Num(), v.Denom(), new(big.Int))
+	switch rem.Lsh(rem, 1).Cmp(v.Denom()) {
+	case 1:
+		q.Add(q, big.NewInt(1))
+	case 0:
+		if q.Bit(0) == 1 {
+			q.Add(q, big.NewInt(1))
+		}
+	}
+
+	s := []byte(q.String())
+	if len(s) <= dp {
+		s = append(bytes.Repeat([]byte{'0'}, dp+1-len(s)), s...)
+	}
+	if dp > 0 {
+		pos := len(s) - dp
+		s = append(s[:pos], append([]byte{'.'}, s[pos:]...)...)
+	}
 
 	if format.ZeroDigit != '0' {
 		s = bytes.Map(func(r rune) rune {
@@ -741,50 +795,4 @@ func indexInt(values []int, want int) int {
 		}
 	}
 	return -1
-}
-
-func round(x float64, prec int) float64 {
-	// From gonum's floats.RoundEven.
-	// https://github.com/gonum/gonum/tree/master/floats
-	if x == 0 {
-		// Make sure zero is returned
-		// without the negative bit set.
-		return 0
-	}
-	// Fast path for positive precision on integers.
-	if prec >= 0 && x == math.Trunc(x) {
-		return x
-	}
-	pow := math.Pow10(prec)
-	intermed := x * pow
-	if math.IsInf(intermed, 0) {
-		return x
-	}
-	if isHalfway(intermed) {
-		correction, _ := math.Modf(math.Mod(intermed, 2))
-		intermed += correction
-		if intermed > 0 {
-			x = math.Floor(intermed)
-		} else {
-			x = math.Ceil(intermed)
-		}
-	} else {
-		if x < 0 {
-			x = math.Ceil(intermed - 0.5)
-		} else {
-			x = math.Floor(intermed + 0.5)
-		}
-	}
-
-	if x == 0 {
-		return 0
-	}
-
-	return x / pow
-}
-
-func isHalfway(x float64) bool {
-	_, frac := math.Modf(x)
-	frac = math.Abs(frac)
-	return frac == 0.5 || (math.Nextafter(frac, math.Inf(-1)) < 0.5 && math.Nextafter(frac, math.Inf(1)) > 0.5)
 }
